@@ -231,8 +231,10 @@ Lemma result_fwd_In ap d v old x :
   In x (result_list ap true d v old) <-> x = v \/ In x (elems d old).
 Proof.
   unfold result_list, path_step. rewrite uniq_In. destruct ap.
-  - rewrite in_app_iff. simpl. intuition; subst; auto.
-  - simpl. intuition; subst; auto.
+  - rewrite in_app_iff, remove_str_In. simpl.
+    destruct (str_eq_dec x v) as [->|N]; intuition; subst; auto.
+  - simpl. rewrite remove_str_In.
+    destruct (str_eq_dec x v) as [->|N]; intuition; subst; auto.
 Qed.
 
 Lemma result_rev_In ap d v old x :
